@@ -3,6 +3,7 @@ Level B, part 4: the ACTION / GOTO tables of the generator model and the assembl
 `Valid G (gen G).aut (gen G).cert` from the invariant of the state graph.
 -/
 import Emboss.Lemmas.Lr1GenBfs
+import Emboss.Lemmas.Lr1GenReduced
 namespace Emboss.Lr1
 namespace Gen
 
@@ -146,7 +147,8 @@ def autOf (G : Grammar) (C : Cert) (st : St) : Automaton :=
 theorem gen_eq {o : Out} (h : gen G = some o) : ∃ C I0 st, tables G = some C ∧
     closure C [⟨C.seedIdx, 0, G.eoi⟩] = some I0 ∧
     bfs C (bfsFuel C) 0 ⟨#[norm I0], #[I0.reverse], #[]⟩ = some st ∧
-    o = ⟨autOf G C st, withItems C st.just, st.states, (rowsOf C G.eoi st).any hasConflict⟩ := by
+    o = ⟨autOf G C st, withItems C st.just, st.states,
+      (rowsOf C G.eoi st).any hasConflict || !allProductive G⟩ := by
   unfold gen at h
   cases hC : tables G with
   | none => simp [hC] at h
@@ -484,10 +486,31 @@ theorem gen_valid {G : Grammar} {o : Gen.Out} (h : gen G = some o) (hW : WfG G)
     refine ⟨hT, hW, b1, b2, b4 0 _ (by simp), hI, ?_⟩
     intro s hs
     refine noConf_of_hasConflict ?_
-    have hc' : (rowsOf C G.eoi st).any hasConflict = false := hc
+    have hc' : (rowsOf C G.eoi st).any hasConflict = false := (Bool.or_eq_false_iff.mp hc).1
     have := List.any_eq_false.mp hc' (rowAt C G.eoi st s)
       (List.mem_map.mpr ⟨s, List.mem_range.mpr hs, rfl⟩)
     simpa using this
   exact d.valid
+
+open Gen in
+/-- A grammar for which the generator model reports nothing (no conflict, no unproductive
+nonterminal) is reduced. -/
+theorem gen_reduced {G : Grammar} {o : Gen.Out} (h : gen G = some o) (hW : WfG G)
+    (hc : o.conflicts = false) : Reduced G := by
+  obtain ⟨C, I0, st, _, _, _, rfl⟩ := gen_eq h
+  have hp : allProductive G = true := by
+    have := (Bool.or_eq_false_iff.mp hc).2
+    simpa using this
+  have hall := allProductive_sound hp
+  refine ⟨hall, ?_⟩
+  cases hs : G.isNT G.start with
+  | false => exact terminal_productive hs
+  | true =>
+    obtain ⟨p, hp', hl⟩ := Grammar.isNT_iff.mp hs
+    rcases List.mem_append.mp hp' with hp' | hp'
+    · rw [← hl]; exact hall p hp'
+    · simp only [List.mem_singleton] at hp'
+      subst hp'
+      exact absurd hl.symm hW.1
 
 end Emboss.Lr1
